@@ -90,6 +90,45 @@ def mk_compound(par_kind):
     return CompoundInterval([3, 12, 25], [9, 20, 31], PLUS, parent=_par(par_kind))
 
 
+def mk_compound_ov(par_kind):
+    """strictly overlapping blocks (no empty block, no touching pair)"""
+    return CompoundInterval([3, 8, 25], [12, 20, 31], MINUS, parent=_par(par_kind))
+
+
+def _hier(depth3=True, other_top=False, exon=(3, 9)):
+    """exon on a feature placed on a chromosome placed (depth3) on an assembly: built with nested parent= as users do"""
+    top = Parent(id="asm2" if other_top else "asm1", sequence_type="assembly") if depth3 else None
+    # the chromosome level is IDENTICAL in both variants except for having / not having a parent of its own
+    chrom = Parent(id="chr1", sequence_type=SequenceType.CHROMOSOME, location=SingleInterval(100, 400, PLUS), parent=top)
+    feat = Parent(id="feat", sequence_type="feature", location=SingleInterval(10, 40, MINUS), parent=chrom)
+    return SingleInterval(exon[0], exon[1], PLUS, parent=feat)
+
+
+def mk_deep(par_kind):
+    return _hier(True)
+
+
+def _anc(o):
+    out = []
+    for t in ("feature", SequenceType.CHROMOSOME, "assembly"):
+        out.append(o.has_ancestor_of_type(t))
+        try:
+            out.append(str(o.lift_over_to_first_ancestor_of_type(t)))
+        except Exception as e:  # noqa
+            out.append(type(e).__name__)
+    return out
+
+
+DEEP_OPS = [
+    ("ancestors", _anc), ("str", str), ("hash", hash), ("lift_chrom", lambda o: o.lift_over_to_first_ancestor_of_type(SequenceType.CHROMOSOME)),
+    ("first_asm", lambda o: str(o.first_ancestor_of_type("assembly"))), ("parent_chain", lambda o: [o.parent.id, o.parent.parent.id, str(o.parent.parent.parent)]),
+    # unrelated hierarchies built through the same (globally cached) Parent constructor, and questions asked of THEM
+    ("shallow_ancestors", lambda o: _anc(_hier(False))), ("other_top_ancestors", lambda o: _anc(_hier(True, other_top=True))),
+    ("same_again", lambda o: _anc(_hier(True))), ("same_other_exon", lambda o: _anc(_hier(True, exon=(5, 6)))),
+    ("evict", evict), ("equal_twin", lambda o: o == _hier(True) and o != _hier(False)),
+]
+
+
 def _par(kind):
     if kind == "chrom":
         return chrom_parent(GENOME40)
@@ -143,7 +182,8 @@ LOC_OPS = [
     ("minus", lambda o: o.minus(SingleInterval(7, 14, o.strand, parent=o.parent))), ("overlapping", lambda o: o.is_overlapping),
     ("optimize", lambda o: o.optimize_blocks()), ("hash", hash), ("rev", lambda o: o.reverse_strand().extract_sequence()), ("len", len),
     ("gaps", lambda o: o.gaps_location()), ("contig", lambda o: o.is_contiguous), ("lift", lambda o: o.lift_over_to_first_ancestor_of_type(SequenceType.CHROMOSOME)),
-    ("pstrand", lambda o: o.parent.strand if o.parent else None), ("evict", evict), ("twin", lambda o: str(type(o)([1], [2], PLUS) if False else SingleInterval(1, 9, PLUS).extract_sequence)),
+    ("pstrand", lambda o: o.parent.strand if o.parent else None), ("merge", lambda o: o.merge_overlapping()), ("opt_combine", lambda o: o.optimize_and_combine_blocks()),
+    ("evict", evict), ("twin", lambda o: str(type(o)([1], [2], PLUS) if False else SingleInterval(1, 9, PLUS).extract_sequence)),
 ]
 CDS_OPS = [
     ("extract", lambda o: o.extract_sequence()), ("rel_codons", lambda o: o.chunk_relative_codon_locations), ("chr_codons", lambda o: o.chromosome_codon_locations),
@@ -196,6 +236,8 @@ ACOLL_OPS = [
 ]
 CATALOGUE = {
     "single": (mk_single, LOC_OPS, ("chrom", "chunk")), "unstranded": (mk_unstranded, LOC_OPS, ("chrom",)), "aa_minus": (mk_aa_minus, LOC_OPS, ("chrom",)), "compound": (mk_compound, LOC_OPS, ("chrom", "chunk")),
+    "compound_ov": (mk_compound_ov, LOC_OPS, ("chrom",)),
+    "deep": (mk_deep, DEEP_OPS, ("chrom",)),
     "cds": (mk_cds, CDS_OPS, ("chrom", "chunk")), "tx": (mk_tx, TX_OPS, ("chrom", "chunk")), "feat": (mk_feat, FEAT_OPS, ("chrom", "chunk")),
     "gene": (mk_gene, GENE_OPS, ("chrom",)), "fcoll": (mk_fcoll, FCOLL_OPS, ("chrom",)), "acoll": (mk_acoll, ACOLL_OPS, ("chrom", "chunk")),
 }
@@ -218,13 +260,19 @@ def schedule_fn(kind, par_kind, k, first=None):
         idx = concretize(*[kw["o%d" % i] for i in range(k)])
         idx = idx if isinstance(idx, list) else [idx]
         with untraced():
-            obj = mk(par_kind)
+            # reference answers come from a clean global Parent cache (a fresh process), the schedule then runs on whatever it leaves behind
+            Parent.cache_clear()
+            fresh = call(ops[idx[-1]][1], mk(par_kind))
             before = snapshot(mk(par_kind))
+            Parent.cache_clear()
+            obj = mk(par_kind)
             for i in idx[:-1]:
                 call(ops[i][1], obj)
             got = call(ops[idx[-1]][1], obj)
-            fresh = call(ops[idx[-1]][1], mk(par_kind))
+            fresh2 = call(ops[idx[-1]][1], mk(par_kind))
             after = snapshot(obj)
+            if fresh2 != fresh:
+                return False  # a twin built AFTER the schedule answers differently from a fresh process: the history leaked through a global cache
             return got == fresh and after == before
 
     return fn
@@ -236,6 +284,7 @@ def lazy_slots_fn(k, strand, pre_ops, op):
         "blocks": lambda l: [(b.start, b.end) for b in l.blocks], "overlapping": lambda l: l.is_overlapping, "len": lambda l: len(l),
         "r2p": lambda l: l.relative_to_parent_pos(0), "optimize": lambda l: blocks_of(l.optimize_blocks()), "str": lambda l: str(l.strand),
         "isect": lambda l: blocks_of(l.intersection(SingleInterval(l.start, l.end, strand))), "gaps": lambda l: blocks_of(l.gaps_location()),
+        "merge": lambda l: blocks_of(l.merge_overlapping()), "minus": lambda l: blocks_of(l.minus(SingleInterval(l.end + 5, l.end + 9, strand))),
     }
 
     def fn(**kw):
@@ -245,7 +294,9 @@ def lazy_slots_fn(k, strand, pre_ops, op):
         for p in pre_ops:
             OPS[p](a)
         ra, rb = OPS[op](a), OPS[op](b)
-        return AND(DEQ(ra, rb), type(ra) is type(rb), DEQ([(x.start, x.end) for x in a.blocks], bl), a.strand is strand,
+        # (blocks are compared with an untouched third twin: the library keeps blocks sorted, which differs from the layout order for nested blocks)
+        c = CompoundInterval([x[0] for x in bl], [x[1] for x in bl], strand)
+        return AND(DEQ(ra, rb), type(ra) is type(rb), DEQ([(x.start, x.end) for x in a.blocks], [(x.start, x.end) for x in c.blocks]), a.strand is strand,
                    len(a) == sum(e - s for s, e in bl))
 
     return fn
@@ -287,4 +338,14 @@ def obligations(tier):
                                desc="symbolic coordinates: after filling the lazy slots (%s), %s answers as on an untouched twin and blocks/strand/length are intact" % (
                                    ", ".join(pre_op) or "none", op),
                                bounds="2 blocks, unbounded symbolic coordinates", examples=[dict(s0=2, l0=3, l1=4, g1=1)]))
+    # H1 on layouts whose two blocks may overlap (signed gap): the lazy _is_overlapping flag must not be filled by other operations with a wrong value
+    for strand in (PLUS, MINUS):
+        for pre_op in ([("optimize",), ("minus",)] if quick else [("optimize",), ("minus",), ("isect",), ("gaps",), ("blocks", "optimize"), ("merge",)]):
+            for op in (["overlapping", "merge"] if quick else ["overlapping", "merge", "blocks", "optimize", "len"]):
+                out.append(Obl("lazy_slots_ov_%s_after_%s_%s" % (op, "+".join(pre_op), sname(strand)), lazy_slots_fn(2, strand, pre_op, op), dict(layout_params(2)),
+                               lambda s0, l0, l1, g1: s0 >= 0 and l0 >= 1 and l1 >= 1 and g1 >= -l0, budget=300, cost=10,
+                               desc="symbolic coordinates, blocks possibly OVERLAPPING or nested: after %s, %s answers as on an untouched twin and blocks/strand/length are intact" % (
+                                   ", ".join(pre_op), op),
+                               bounds="2 blocks, second block starting anywhere at or after the first block's start, unbounded symbolic coordinates",
+                               examples=[dict(s0=2, l0=6, l1=4, g1=-3), dict(s0=2, l0=3, l1=4, g1=1)]))
     return out
